@@ -179,6 +179,32 @@ func c12Judge(sc *Scenario, st *engine.Stats, res *engine.JobResult) {
 var c12SmallFamilies = map[string]bool{"toma": true, "topa-stdout": true, "topa-dir": true, "samvariants": true, "snps": true, "snps-agg": true,
 	"list": true, "closest": true, "closestn": true, "topranking": true, "topranking-csv": true}
 
+// c12BigScenarios: inputs with more records than the pipelines' channel buffers hold (50+threads,
+// NumCPU+50), so that stages really block on full buffers. Long executions: delay-bounded.
+func c12BigScenarios() []Scenario {
+	const n = 60
+	var sc []Scenario
+	add := func(name, fam string, c Call) {
+		c.Threads, c.NCPU = 2, 2
+		sc = append(sc, Scenario{Name: fmt.Sprintf("%s/n%d/t2", name, n), Family: fam, Call: c, Mode: "D1M1"})
+	}
+	msa := []string{"ref", g12}
+	sam := samHeader(12)
+	for i := 0; i < n; i++ {
+		q := []byte(g12)
+		q[i%12] = "ACGT"[(i/12+1+strings.IndexByte("ACGT", g12[i%12]))%4]
+		msa = append(msa, fmt.Sprintf("q%02d", i), string(q))
+		sam += samRec(fmt.Sprintf("q%02d", i), 0, 1, "12M", string(q))
+	}
+	gb := renderGenbank(g12, []Feat{{Name: "orfA", Segs: []Seg{{1, 9}}}})
+	add("variants-gb-big", "variants", Call{Cmd: "variants", Msa: fastaOf(msa...), RefID: "ref", Anno: gb, AnnoSuffix: "gb"})
+	add("variants-stdin-big", "variants", Call{Cmd: "variants", Msa: fastaOf(msa...), RefID: "ref", Stdin: true, Anno: gb, AnnoSuffix: "gb"})
+	add("list-big", "list", Call{Cmd: "list", Ref: fastaOf("ref", g12), Msa: fastaOf(msa[2:]...)})
+	add("snps-big", "snps", Call{Cmd: "snps", Ref: fastaOf("ref", g12), Msa: fastaOf(msa[2:]...)})
+	add("toma-big", "toma", Call{Cmd: "toma", Sam: sam})
+	return sc
+}
+
 func c12All(tier string) []Scenario {
 	var sc []Scenario
 	with := func(ss []Scenario, mode func(s *Scenario) string) {
@@ -199,6 +225,7 @@ func c12All(tier string) []Scenario {
 		})
 		with(c12Scenarios(2, 1), func(s *Scenario) string { return "U" })
 		with(c12CSVScenarios(2), func(s *Scenario) string { return "U" })
+		sc = append(sc, c12BigScenarios()...)
 		return sc
 	}
 	with(c12ScenariosX(2, 2, true), func(s *Scenario) string {
@@ -209,6 +236,7 @@ func c12All(tier string) []Scenario {
 	})
 	with(c12Scenarios(2, 1), func(s *Scenario) string { return "U" })
 	with(c12CSVScenarios(2), func(s *Scenario) string { return "U" })
+	with(c12BigScenarios(), func(s *Scenario) string { return "D2M1" })
 	with(c12Scenarios(3, 2), func(s *Scenario) string { return "P2M2" })
 	with(c12Scenarios(2, 3), func(s *Scenario) string { return "P2M2" })
 	with(c12Scenarios(3, 3), func(s *Scenario) string {
